@@ -20,7 +20,7 @@ import gen as G
 PID = "C01"
 RULE = (
     "cases: (decision matrix, selector chain). Matrices are never square by default (1-9 alternatives x 1-6 criteria), "
-    "int64/float64 dtypes mixed per criterion, pairwise DISTINCT weights, mixed objectives given through random documented "
+    "int64/float64 dtypes mixed per criterion, pairwise DISTINCT weights (a quarter of the matrices with some or all weights exactly 0), mixed objectives given through random documented "
     "aliases, labels from the shared pools (non-sorted, non-prefix-free, unicode, one label shared by both axes). Chains of "
     "1-6 links over dm[...] (label, list in any order, int/label slices with steps, boolean mask), loc / iloc with a row "
     "selector and an optional column selector (One|Many|Slice|Mask|All on each axis, negative positions, reversed / "
@@ -208,10 +208,16 @@ def dm_case(rng, m=None, n=None, shared_labels=False):
                 row.append(float(G.value(rng, family, positive=False)))
         rows.append(row)
     senses = G.objectives(rng, n)
+    wts = G.weights(rng, n, family if n <= 8 else "dyadic")
+    if rng.random() < 0.25:
+        # criteria of weight exactly 0 are legitimate (a criterion switched off); a sub-matrix may keep only such criteria
+        for j in range(n):
+            if rng.random() < 0.6:
+                wts[j] = 0.0
     return {
         "matrix": rows,
         "objectives": [random_alias(rng, s) for s in senses],
-        "weights": G.weights(rng, n, family if n <= 8 else "dyadic"),
+        "weights": wts,
         "alternatives": alts,
         "criteria": crits,
         "dtypes": dts,
